@@ -110,7 +110,18 @@ def run(ctx):
         shared = len({id(n.nsmap) for n in walk(root)}) < sum(1 for _ in walk(root))
         dist["trees_with_shared_dicts"] += shared
         ntags = len(tagmap)
-        ids_before = set(Node.store.keys())
+        # the registry state of the ORIGINAL is not part of the hypothesis: entries of some of its nodes may have been dropped
+        # (delete_node_instance(id, children=False) on a node that stays in the tree, or a cleared store)
+        unregistered = set()
+        r = rng.random()
+        if r < 0.12:
+            for n in walk(root):
+                if rng.random() < 0.4:
+                    Node.store.pop(n.id, None); unregistered.add(n.id)
+        elif r < 0.18:
+            unregistered = {n.id for n in walk(root)}
+            Node.store.clear()
+        ids_before = set(Node.store.keys()) | unregistered
         cp = root.copy()
         after_orig = otree(root, tagmap)
         copy_t = otree(cp, tagmap)
@@ -128,7 +139,7 @@ def run(ctx):
                 what = f"ids of the copy are not fresh and unique: {cids}"
             elif any(Node.get_node_instance(n.id) is not n for n in walk(cp)):
                 what = "a node of the copy is not registered under its id"
-            elif any(Node.get_node_instance(n.id) is not n for n in walk(root)):
+            elif any(Node.get_node_instance(n.id) is not n for n in walk(root) if n.id not in unregistered):
                 what = "a node of the original is no longer registered under its id"
             else:
                 for n in walk(cp):
